@@ -365,6 +365,22 @@ struct Acc {
     first_fail: Option<(String, String)>,
 }
 
+/// `f<bits>` tokens -> `g<bits rounded to 24 significant bits>` (lean/SV/Model/C16.lean `fmtNumCoarse`)
+fn coarse_floats(a: &str) -> String {
+    a.split(' ')
+        .map(|t| match t.strip_prefix('f').and_then(|d| d.parse::<u64>().ok()) {
+            Some(b) => format!("g{}", b.wrapping_add(1 << 28) >> 29),
+            None => t.to_string(),
+        })
+        .collect::<Vec<_>>()
+        .join(" ")
+}
+
+/// two entry points tell the same story: the same value, or both an error (of whichever kind)
+fn same_story(a: &str, b: &str) -> bool {
+    a == b || (a.starts_with("err") && b.starts_with("err"))
+}
+
 fn answer(parser: usize, text: &str) -> (String, Result<(), String>) {
     if parser == 1 {
         match catch(|| SimplePolynomial::parse(text)) {
@@ -374,7 +390,7 @@ fn answer(parser: usize, text: &str) -> (String, Result<(), String>) {
                 let verdict = fidelity1(text, &r).and_then(|_| match catch(|| (parse_simple_polynomial(text), parse_simple_polynomial(text.to_string()))) {
                     None => Err("parse_simple_polynomial panicked".to_string()),
                     Some((f, g)) => {
-                        if show1(&f) == a && show1(&g) == a {
+                        if same_story(&show1(&f), &a) && same_story(&show1(&g), &a) {
                             Ok(())
                         } else {
                             Err(format!("entry points differ: trait `{a}`, free function `{}` / `{}`", show1(&f), show1(&g)))
@@ -392,7 +408,7 @@ fn answer(parser: usize, text: &str) -> (String, Result<(), String>) {
                 let verdict = fidelity2(text, &r).and_then(|_| match catch(|| (parse_intermediate_polynomial(text), parse_intermediate_polynomial(text.to_string()))) {
                     None => Err("parse_intermediate_polynomial panicked".to_string()),
                     Some((f, g)) => {
-                        if show2(&f) == a && show2(&g) == a {
+                        if same_story(&show2(&f), &a) && same_story(&show2(&g), &a) {
                             Ok(())
                         } else {
                             Err(format!("entry points differ: trait `{a}`, free function `{}` / `{}`", show2(&f), show2(&g)))
@@ -412,7 +428,14 @@ fn enum_from(parser: usize, alphabet: &[char], budget: usize, s: &mut String, ac
     if a.starts_with("ok") {
         acc.ok += 1;
     }
-    acc.h = fnv_str(acc.h, &a);
+    // "a value or an error": which error variant a rejected text gets is not part of the property - the digest hashes
+    // `err` for every rejection (the model's driver does the same), the accepted values in full
+    // Coefficients of a univariate text with two or more sign characters (only such a text can have three or more like
+    // terms, whose sum depends - in the last bits - on the order in which the parser adds them, which no property fixes)
+    // are hashed rounded to 24 significant bits; everything else with all 64 bits.
+    let coarse = parser == 1 && s.chars().filter(|c| *c == '+' || *c == '-').count() >= 2;
+    let hashed = if a.starts_with("err") { "err".to_string() } else if coarse { coarse_floats(&a) } else { a.clone() };
+    acc.h = fnv_str(acc.h, &hashed);
     if let Err(e) = v {
         let better = match &acc.first_fail {
             None => true,
